@@ -1,8 +1,11 @@
 package main
 
 import (
+	"go/token"
 	"go/types"
 	"sync"
+
+	"golang.org/x/tools/go/ssa"
 )
 
 // Caches for type relations (go/types computes method sets and prints types on every call,
@@ -47,4 +50,35 @@ func (i *interpreter) boundsTerm(t *Term, n int) *Term {
 		return i.tb.tt
 	}
 	return i.tb.Cmp(opUlt, t, i.tb.Const(t.w, uint64(n)))
+}
+
+// symAddr is the address of elems[idx] for a symbolic idx that is only loaded through.
+type symAddr struct {
+	elems       []value
+	idx         value
+	tidx, telem types.Type
+}
+
+var onlyLoadedCache sync.Map
+
+// onlyLoaded reports whether every use of the address computed by instr is a load.
+func onlyLoaded(instr *ssa.IndexAddr) bool {
+	if v, ok := onlyLoadedCache.Load(instr); ok {
+		return v.(bool)
+	}
+	res := true
+	refs := instr.Referrers()
+	if refs == nil || len(*refs) == 0 {
+		res = false
+	} else {
+		for _, r := range *refs {
+			u, ok := r.(*ssa.UnOp)
+			if !ok || u.Op != token.MUL {
+				res = false
+				break
+			}
+		}
+	}
+	onlyLoadedCache.Store(instr, res)
+	return res
 }
